@@ -1,5 +1,6 @@
 import Driver.Util
 import Verif.Model.MptEnc
+import Verif.Gen.Constants
 /-! Model driver for the state-trie suites c01/c02 (op language: see /verif/go/harness/suite_c01.go). -/
 namespace Driver.Mpt
 open Verif.Mpt Driver
@@ -8,7 +9,15 @@ structure St where
   t : Node := .empty
   v : Nat := 0
 
+/-- the largest value `Insert` must accept: a constant of the SPECIFICATION (10 MiB), deliberately not the regenerated
+    `Verif.Gen.Constants.mptMaxAllowableNodeSize` - a changed limit in the code must show up as a difference -/
 def maxSize : Nat := 10 * 1024 * 1024
+
+/-- a value as the harness prints it: hex; a long value made of one repeated byte as `#<len>*<byte>` -/
+def hxv (b : Bytes) : String :=
+  match b with
+  | x :: _ => if b.length > 64 && b.all (· == x) then "#" ++ toString b.length ++ "*" ++ hex [x] else hex b
+  | [] => hex b
 
 def rootStr (t : Node) : String :=
   let k := root sha3 t
@@ -21,7 +30,7 @@ def outcome (t : Node) : Outcome → String
   | .panic => "panic"
 
 def fmtPairs (ps : List (List Nib × Bytes)) : String :=
-  ",".intercalate (ps.map (fun (p, b) => ptok p ++ "=" ++ hex b))
+  ",".intercalate (ps.map (fun (p, b) => ptok p ++ "=" ++ hxv b))
 
 def step (s : St) (w : List String) : St × String :=
   match w with
@@ -38,14 +47,29 @@ def step (s : St) (w : List String) : St × String :=
     match parsePath p with
     | some p => let (t', o) := Trie.insert maxSize s.v s.t p []; ({ s with t := t' }, outcome t' o)
     | none => (s, "bad-op")
-  | ["insbig", _] => (s, "toolarge")
+  | ["insbig", p] =>
+    -- a value of MPTMaxAllowableNodeSize+1 bytes (the CODE's constant, regenerated): what `Trie.insert maxSize` answers
+    -- for a non-empty value of that length, without building the list when it is over the specified limit
+    match parsePath p with
+    | some p =>
+      if Verif.Gen.Constants.mptMaxAllowableNodeSize + 1 > maxSize then (s, "toolarge")
+      else
+        let (t', o) := Trie.insert maxSize s.v s.t p (List.replicate (Verif.Gen.Constants.mptMaxAllowableNodeSize + 1) 0xab)
+        ({ s with t := t' }, outcome t' o)
+    | none => (s, "bad-op")
+  | ["insfill", p, n, x] =>
+    match parsePath p, unhex x with
+    | some p, some [x] =>
+      let (t', o) := Trie.insert maxSize s.v s.t p (List.replicate n.toNat! x)
+      ({ s with t := t' }, outcome t' o)
+    | _, _ => (s, "bad-op")
   | ["del", p] =>
     match parsePath p with
     | some p => let (t', o) := Trie.delete s.v s.t p; ({ s with t := t' }, outcome t' o)
     | none => (s, "bad-op")
   | ["get", p] =>
     match parsePath p with
-    | some p => (s, match lookup s.t p with | some b => "ok " ++ hex b | none => "notpresent")
+    | some p => (s, match lookup s.t p with | some b => "ok " ++ hxv b | none => "notpresent")
     | none => (s, "bad-op")
   | ["iter"] => (s, "ok " ++ fmtPairs (iterate s.t []))
   | _ => (s, "bad-op")
